@@ -12,6 +12,11 @@ def spec(tier):
             for i in range(n, 4):
                 fixed[f"a{i}"] = 0
             obs.append(CH(name=f"protocol_tps{tps}_n{n}", harness="c14.trace_protocol", sym=sym, fixed=fixed, timeout=900))
+    # pipeline ids that repeat inside one trace (non-adjacent pipelines carrying the same label)
+    for tps in ((1, 2, 4) if th else (1,)):
+        sym = {f"a{i}": I(0, 5) for i in range(4)}
+        sym["R"] = I(0, 6)
+        obs.append(CH(name=f"protocol_repeated_ids_tps{tps}", harness="c14.trace_protocol", sym=sym, fixed=dict(tps=tps, n=4, dup_ids=True), timeout=900))
     # a replay after another replay in the same process that stopped before its trace was exhausted
     for tps in ((1, 2, 4) if th else (2,)):
         obs.append(CH(name=f"protocol_after_other_trace_tps{tps}", harness="c14.trace_protocol",
